@@ -45,7 +45,6 @@ typedef struct wv_FILE
   wv_u64 nwrites;  /* number of fwrite calls issued on this stream */
   wv_u64 nbytes;   /* number of bytes written to this stream */
   wv_u64 min_woff; /* smallest offset any write touched (ULLONG_MAX if none) */
-  bool tag_dirty;  /* some write with non-zero content touched [10,48) */
   wv_u64 last_woff, last_wlen;
 } wv_FILE;
 #define FILE wv_FILE
@@ -71,6 +70,8 @@ int wv_feof(wv_FILE *f);
 int wv_fgetc(wv_FILE *f);
 int wv_ungetc(int c, wv_FILE *f);
 int wv_fclose(wv_FILE *f);
+#define strlen wv_strlen
+size_t wv_strlen(const char *s);
 wv_FILE *wv_fopen(const char *path, const char *mode);
 static inline int wv_fflush(wv_FILE *f) { int wv_r; return wv_r; }   /* no effect on the ghost file */
 static inline int fprintf(wv_FILE *f, const char *fmt, ...) { int wv_r; return wv_r; }   /* diagnostics only */
@@ -102,8 +103,18 @@ typedef struct { bool held; } wv_mutex;
 typedef struct { unsigned notified; } wv_cv;
 typedef struct { bool started, joined; int fn; unsigned arg; void *obj; } wv_thread;
 static inline void wv_sync_init(void *p, size_t n) { memset(p, 0, n); }
-void wv_mutex_lock(wv_mutex *m);
-void wv_mutex_unlock(wv_mutex *m);
+/* std::mutex as a ghost flag: locking a mutex this thread already holds is a self-deadlock (asserted), unlocking needs the lock;
+   other threads' critical sections are accounted for by the rely of the thread-modular contracts (pipeline.h), not here */
+static inline void wv_mutex_lock(wv_mutex *m)
+{
+  __CPROVER_assert(!m->held, "[C04] lock of a mutex that this thread already holds (self-deadlock)");
+  m->held = 1;
+}
+static inline void wv_mutex_unlock(wv_mutex *m)
+{
+  __CPROVER_assert(m->held, "[C14] unlock of a mutex that is not held");
+  m->held = 0;
+}
 void wv_cv_wait(wv_cv *cv, wv_mutex *m);
 void wv_cv_notify_all(wv_cv *cv);
 void wv_thread_join(wv_thread *t);
